@@ -230,7 +230,6 @@ fn run_case_in<K: HKey>(dir: &Path, cfg: &Cfg, universe: &[u8], opsq: &[Op], res
             store.close();
             if let Some((p, o, d)) = disk_check::<K>(dir, cfg.n, &model, &mut seen, true) {
                 vs.push(mk(p, o, format!("(closed store) {d}"), i));
-                return vs;
             }
         }
         let got = store.apply(op);
@@ -268,7 +267,10 @@ fn run_case_in<K: HKey>(dir: &Path, cfg: &Cfg, universe: &[u8], opsq: &[Op], res
         if let Some((p, o, d)) = disk_check::<K>(dir, cfg.n, &model, &mut seen, false) {
             vs.push(mk(p, o, d, upto));
         }
-        if !vs.is_empty() {
+        // keep going after a violation (another property's oracle may only fire later, e.g. after the next
+        // restart), but keep one finding per oracle and stop once the run is clearly derailed
+        dedupe(&mut vs);
+        if vs.len() > 12 {
             return vs;
         }
         let lag = {
@@ -282,7 +284,6 @@ fn run_case_in<K: HKey>(dir: &Path, cfg: &Cfg, universe: &[u8], opsq: &[Op], res
         store.close();
         if let Some((p, o, d)) = disk_check::<K>(dir, cfg.n, &model, &mut seen, true) {
             vs.push(mk(p, o, format!("(closed store, leaf restart {round}) {d}"), opsq.len()));
-            return vs;
         }
         if let Err(e) = store.reopen() {
             vs.push(mk(vec!["C02"], "reopen-failed", format!("leaf restart {round} failed: {e}"), opsq.len()));
@@ -294,11 +295,22 @@ fn run_case_in<K: HKey>(dir: &Path, cfg: &Cfg, universe: &[u8], opsq: &[Op], res
             v.sig = format!("{}@restart", fd.oracle);
             vs.push(v);
         }
-        if !vs.is_empty() {
-            return vs;
-        }
+        dedupe(&mut vs);
     }
     vs
+}
+
+fn dedupe(vs: &mut Vec<Violation>) {
+    let mut seen: Vec<(Vec<String>, String)> = Vec::new();
+    vs.retain(|v| {
+        let k = (v.props.clone(), v.oracle.clone());
+        if seen.contains(&k) {
+            false
+        } else {
+            seen.push(k);
+            true
+        }
+    });
 }
 
 fn run_sub<K: HKey>(sr: &SubRun, slice: (u64, u64), seed: u64, res: &mut WorkerResult) {
